@@ -251,6 +251,22 @@ class Ceremony:
                             (p, cos, change, k.path, k.address, e['address']))
         w.probe('agree_via_get_key')
 
+    def op_reopen(self):
+        """A cosigner closes and reopens its wallet (a new Wallet object on the same database)."""
+        ch, w = self.ch, self.w
+        p = ch.index('reopen_party', len(self.parties))
+        party = self.parties[p]
+        w.op('reopen_party', party=p)
+        try:
+            party['w'].session.close()
+        except Exception:
+            pass
+        ok, wl = self.call('open', lambda: self.BW.Wallet('solo' if self.single else 'party%d' % p, db_uri=party['db'],
+                                                          db_cache_uri=self.cache))
+        if ok:
+            party['w'] = wl
+            w.outcome('reopened', party=p)
+
     def op_fund(self):
         ch, w = self.ch, self.w
         index = ch.pick('fidx', [0, 0, 1, 2])
@@ -1009,7 +1025,7 @@ class Ceremony:
         ch = self.ch
         if self.focus == 'C10':
             table = [('agree', 5), ('fund', 4), ('create', 6), ('sign', 7), ('handoff', 8), ('deliver', 3), ('send', 5),
-                     ('mine', 1), ('tamper', 1), ('sign_round', 3)]
+                     ('mine', 1), ('tamper', 1), ('sign_round', 3), ('reopen', 2)]
         else:
             table = [('fund', 4), ('create', 6), ('sign', 7), ('handoff', 4), ('deliver', 1), ('tamper', 9), ('roundtrip', 5),
                      ('send', 2), ('mine', 1), ('tamper_wire', 5), ('sign_round', 4)]
